@@ -807,6 +807,90 @@ def typed_hist_case(rng, xdt, wdt, base_step=None):
     return [sh, flat, w, sel, r0, r1, bins, False, [xdt, wdt or "f8"]]
 
 
+# closed-range ends that coincide EXACTLY with data values, at magnitudes from 1e-12 to 1e15 (the
+# viewers' default range is the data minimum / maximum): the value on the upper end must be counted in
+# the last bin — in log space this depends on the 10-ulp pad being applied to log10(xmax), where an ulp
+# is up to 1e8 times coarser relative to xmax than an ulp of xmax itself.
+XMAG = [float("%ge%d" % (m, e)) for e in (-12, -9, -5, -2, 0, 2, 4, 6, 8, 10, 12, 15) for m in (1, 2, 3, 5, 7, 2.5)]
+XLIN = [(2459000.5, [0, qv(1, 4), qv(3, 2), 10, qv(1461, 4), 1000]), (1e15, [0, 2 ** 20, 3 * 2 ** 20, 2 ** 30, 5 * 2 ** 28 + 2 ** 19, 2 ** 40]),
+        (1e10, [0, qv(1, 2), 1000, 123456, 2 ** 24 + 1, 10 ** 9]), (-1e12, [0, 2 ** 10, 2 ** 20, 3 * 2 ** 19, 10 ** 9, 2 ** 36])]
+XW = [1, 2, 4, 8, 16, qv(1, 2), 3, qv(5, 4), 0, -1]
+
+
+def near_log_edge(case, guard=1e-9):
+    """generator-side stratification only: a kept value whose position in log space is within `guard`
+    bins of an interior edge without lying exactly on it (np.log10 rounding would decide its bin)"""
+    import math
+    sh, flat, w, sel, r0, r1, bins, log = case[:8]
+    lo, hi = sorted((fr(r0), fr(r1)))
+    if not log or lo <= 0 or lo == hi:
+        return False
+    for v in flat:
+        if is_special(v):
+            continue
+        x = fr(v)
+        if not (lo < x < hi):
+            continue
+        t = bins * (math.log(x) - math.log(lo)) / (math.log(hi) - math.log(lo))
+        k = round(t)
+        if 1 <= k <= bins - 1 and abs(t - k) < guard and (hi / lo) ** k != (x / lo) ** bins:
+            return True
+    return False
+
+
+def lin_clear_of_edges(case):
+    """generator-side replica of `Stats.histP` (linear bins): the 10-ulp pad of the upper end is small
+    against the range and no kept value lies within it above an interior edge (values exactly on an
+    interior edge are the F10 stratum and handled separately)"""
+    import math
+    sh, flat, w, sel, r0, r1, bins, log = case[:8]
+    lo, hi = sorted((fr(r0), fr(r1)))
+    if log or lo == hi:
+        return True
+    eps = 10 * Fraction(math.ulp(float(hi)))
+    if (bins - 1) * eps > hi - lo:
+        return False
+    for v in flat:
+        if is_special(v):
+            continue
+        x = fr(v)
+        if not (lo <= x < hi):
+            continue
+        k = ((x - lo) * bins / (hi - lo)).__floor__()
+        if lo + k * (hi + eps - lo) / bins > x:
+            return False
+    return True
+
+
+def extreme_hist_case(rng, log):
+    if log:
+        vals = [enc(v) for v in rng.sample(XMAG, rng.randint(2, 7))]
+    else:
+        base, offs = rng.choice(XLIN)
+        vals = [qv(Fraction(base) + Fraction(dec(o)) if not isinstance(o, list) else Fraction(base) + fr(o))
+                for o in rng.sample(offs, rng.randint(2, len(offs)))]
+    vals = vals + [rng.choice(vals) for _ in range(rng.randint(0, 3))]      # repeated end values
+    rng.shuffle(vals)
+    fin = sorted(vals, key=fr)
+    r = rng.random()
+    if r < 0.6:
+        r0, r1 = fin[0], fin[-1]                 # the viewer default: data minimum and maximum
+    else:
+        r0, r1 = sorted(rng.sample(vals, 2) if len(vals) > 1 else vals * 2, key=fr)
+    if rng.random() < 0.25:
+        r0, r1 = r1, r0
+    flat = list(vals)
+    if rng.random() < 0.3:
+        flat.insert(rng.randrange(len(flat) + 1), rng.choice(["nan", "pinf", "ninf"]))
+    sh = [len(flat)]
+    if len(flat) in (4, 6, 8) and rng.random() < 0.3:
+        sh = [2, len(flat) // 2]
+    w = None if rng.random() < 0.55 else [rng.choice(XW) for _ in flat]
+    sel = None if rng.random() < 0.7 else rng.choice([["pixgt", 0, 0], ["bits"] + [rng.random() < 0.8 for _ in flat],
+                                                      ["ge", fin[len(fin) // 2]], ["le", fin[-1]]])
+    return [sh, flat, w, sel, r0, r1, rng.randint(1, 6), log]
+
+
 def hist_dts(case):
     return case[8] if len(case) > 8 else ["f8", "f8"]
 
@@ -832,14 +916,43 @@ class HistFamily(Family):
     def _cases(self, tier, rng):
         a = self._cases_f8(tier, rng)
         b = self._typed_cases(tier, rng)
+        c = self._extreme_cases(tier, rng)
         while True:
             n = 0
-            for it, k in ((b, 100), (a, 500)):
+            for it, k in ((c, 100), (b, 100), (a, 500)):
                 for case in itertools.islice(it, k):
                     n += 1
                     yield case
             if n == 0:
                 return
+
+    def _extreme_cases(self, tier, rng):
+        """range ends exactly on data values at magnitudes 1e-12 .. 1e15 (log space), and linear
+        histograms at large magnitudes (2459000.5, 1e10, 1e15, -1e12); reversed ranges, weights,
+        selections.  Values that np.log10 rounding (log) or the 10-ulp pad (linear) would move across an
+        interior edge without lying on it are left out; values exactly on one are the capped F10 stratum."""
+        quick = tier == "quick"
+        # fixed: the shapes of the viewers' default ranges
+        fixed = [([1e2, 3e4, 5e6, 7e8, 1e10], 4), ([1., 2e3, 5e6, 7e9, 1e12, 1e12], 4), ([5., 3e15, 2e7, 3e15], 3),
+                 ([1e-12, 3e-9, 2e-5, 7e-2], 3), ([2.5e-12, 1e15], 5), ([7e8, 7e8], 1), ([3e-9, 5e6, 1e15, 1e15, 1e15], 6),
+                 ([2e-12, 5e-12, 7e-12], 2), ([1e8, 3e8, 1e9], 2), ([1e-8, 3e-8, 1e-7], 2)]
+        for vals, bins in fixed:
+            flat = [enc(v) for v in vals]
+            lo, hi = enc(min(vals)), enc(max(vals))
+            for (r0, r1) in ((lo, hi), (hi, lo)):
+                for w in (None, [XW[i % 5] for i in range(len(flat))]):
+                    for log in (True, False):
+                        for b in sorted({bins, 1, 2}):
+                            case = [[len(flat)], flat, w, None, r0, r1, b, log]
+                            if not near_log_edge(case) and (has_interior_edge(case) or lin_clear_of_edges(case)):
+                                yield case
+        for _ in range(1500 if quick else 30000):
+            case = extreme_hist_case(rng, rng.random() < 0.75)
+            if crashes_fast_histogram(case[4], case[5], case[7]) or near_log_edge(case):
+                continue
+            if not has_interior_edge(case) and not lin_clear_of_edges(case):
+                continue
+            yield case
 
     def _typed_cases(self, tier, rng):
         """every storage dtype for the attribute and for the weights (clean stratum: no value on or near an edge)"""
@@ -1069,6 +1182,12 @@ class HistStateFamily(Family):
                 c2 = typed_hist_case(rng, ALL_DT[(n // 3) % len(ALL_DT)], None)
                 if dec(c2[4]) != dec(c2[5]):
                     yield c2
+            if n % 3 == 1:
+                # the layer's histogram over limits that sit exactly on data values at extreme magnitudes
+                c3 = extreme_hist_case(rng, rng.random() < 0.75)
+                c3[2] = None
+                if dec(c3[4]) != dec(c3[5]) and not has_interior_edge(c3) and not near_log_edge(c3) and lin_clear_of_edges(c3):
+                    yield c3
 
     def run_impl(self, case):
         from glue.viewers.histogram.state import HistogramViewerState, HistogramLayerState
